@@ -153,7 +153,8 @@ def gen_struct(rng, idx, allow_nested=True):
         fields.append((fname, f"    {pre}{attr}{post}{vis}{fname}: {ty},"))
         mks.append(f"{fname}: Mk::mk(s.wrapping_mul(31).wrapping_add({i}))")
         frame.append(f"(r.{acc} != a.{acc}) as usize")
-    if all_skipped:     # a struct whose every field is skipped does not compile (known finding D5): keep one real field
+    if all_skipped: feats.append('all_fields_skipped')
+    if all_skipped and rng.random() < 0.4:     # a struct whose every field is skipped compiles since the repair of D5; sometimes one real field is added all the same
         fields.append(('keep', "    pub keep: i64,")); mks.append("keep: Mk::mk(s)"); frame.append("(r.keep != a.keep) as usize")
         checks.append("        if r.keep != b.keep { return Err(format!(\"plain field keep\")); }")
     # every declared parameter must be used by some field (rustc E0392); parameters used only behind a reference are known finding D8
@@ -369,6 +370,8 @@ KNOWN_BAD = {
          "#[derive(Debug, Clone, PartialEq)]\npub struct W<T, const K: usize>(pub [T; K]);\n#[derive(Debug, Clone, PartialEq)]\npub struct Neg<const I: i32>;\n#[derive(Debug, Clone, PartialEq)]\npub struct Ch<const C: char>;\n#[derive(Debug, Clone, PartialEq, Difference)]\npub struct D<const N: usize> { pub w: W<u8, 4>, pub o: Option<W<i64, 0x2>>, pub x: Neg<-1>, pub c: Ch<'x'>, pub b: W<u8, { N }>, pub a: [u8; N], pub n: u8 }\n"),
  'D29': ("an enum without variants (enum Never {}): the generated diff_ref matches on a reference, and a reference to an uninhabited type counts as inhabited (E0004)",
          "#[derive(Debug, Clone, PartialEq, Difference)]\npub enum D {}\n#[derive(Debug, Clone, PartialEq, Difference)]\npub enum E<T: Clone + PartialEq + std::fmt::Debug> { #[allow(dead_code)] Only(T) }\n"),
+ 'D5n': ("a struct without an unskipped field under the nanoserde feature: nanoserde's own derive does not accept the (variant-less) diff enums [features: ns]",
+         "#[cfg(feature = \"ns\")] #[allow(unused_imports)] use nanoserde::{SerBin, DeBin};\n#[derive(Debug, Clone, PartialEq, Difference)]\npub struct D { #[difference(skip)] pub f0: i64 }\n"),
  'D7': ("trailing comma inside a difference attribute", "#[derive(Debug, Clone, PartialEq, Difference)]\npub struct D { #[difference(skip,)] pub f0: i64, pub f1: i64 }\n"),
  'D8': ("generic parameter used only behind a reference inside another type", "#[derive(Debug, Clone, PartialEq, Difference)]\npub struct D<'a, T> { pub o: Option<&'a T> }\n"),
  'D8b': ("generic parameter used only as the head of an associated-type path (same cause as D8: the used-parameter test compares the parameter's name with whole base strings)",
